@@ -53,4 +53,47 @@ example : MaskKind.bearerCapabilities.new true false = 128 := by decide
 def pinnedBearerNew (digital analog : Bool) : UInt32 := UInt32.ofNat (b2n digital * 64 + b2n analog * 128)
 example : MaskKind.bearerCapabilities.first (pinnedBearerNew true false) = false := by decide
 
+/-! ### a reader whose `bytes` declines
+
+The trait only says `bytes` *attempts* a read.  A reader that answers every `bytes` request with `None` (and is a plain
+cursor otherwise) is outside what C02 calls conforming, but a bitmask word must still not be lost to it: the four
+bitmask decoders do not ask for `bytes` at all, so they answer such a reader exactly as they answer the slice. -/
+
+/-- the slice cursor with `bytes` switched off -/
+structure Declining where
+  data : Bytes
+
+instance : Rdr Declining where
+  len r := r.data.length
+  u8 r := (Rdr.u8 r.data).map fun (p : UInt8 × Bytes) => (p.1, ⟨p.2⟩)
+  u16 r := (Rdr.u16 r.data).map fun (p : UInt16 × Bytes) => (p.1, ⟨p.2⟩)
+  u32 r := (Rdr.u32 r.data).map fun (p : UInt32 × Bytes) => (p.1, ⟨p.2⟩)
+  u64 r := (Rdr.u64 r.data).map fun (p : UInt64 × Bytes) => (p.1, ⟨p.2⟩)
+  skip r n := (Rdr.skip r.data n).map fun d => ⟨d⟩
+  sub r n := (Rdr.sub r.data n).map fun (p : Bytes × Bytes) => (⟨p.1⟩, ⟨p.2⟩)
+  bytes _ _ := none
+
+/-- the answer to the declining reader, read back as an answer to the slice -/
+def undecline {ε α : Type} : Out Declining ε α → Out Bytes ε α
+  | .ok a r => .ok a r.data
+  | .err e r => .err e r.data
+  | .fault f => .fault f
+
+theorem leafU32_declining (attr : UInt16) (mk : UInt32 → AVP) (b : Bytes) :
+    undecline ((leafU32 attr mk : M Declining DErr AVP) ⟨b⟩) = (leafU32 attr mk : M Bytes DErr AVP) b := by
+  match b with
+  | [] => rfl
+  | [_] => rfl
+  | [_, _] => rfl
+  | [_, _, _] => rfl
+  | _ :: _ :: _ :: _ :: _ => rfl
+
+/-- all four bitmask kinds: the word decoded through a reader whose `bytes` declines is the word decoded from the
+    slice (same value, same octets left over, same refusal when fewer than four octets are there) -/
+theorem bitmask_decode_declining (t : UInt16) (ht : t = 3 ∨ t = 4 ∨ t = 18 ∨ t = 19) (b : Bytes) :
+    undecline ((decodeAvp t : M Declining DErr AVP) ⟨b⟩) = (decodeAvp t : M Bytes DErr AVP) b := by
+  rcases ht with h | h | h | h <;> subst h <;> exact leafU32_declining _ _ b
+
+example : undecline ((decodeAvp 3 : M Declining DErr AVP) ⟨[0, 0, 0, 0xC0]⟩) = .ok (.framingCapabilities 0xC0) [] := by decide
+
 end Rl2tp.C17
